@@ -872,6 +872,10 @@ func genFuzz(rng *h.Rng, emit func(string), thorough bool) {
 	for i := 0; i < 6; i++ {
 		emit(fmt.Sprintf("deep %s %d", pick(rng, "json", "jsonobj", "jsonmix", "xml", "xmldesc"), 1+rng.Intn(pickInt(rng, 50, 1500, 3000, 3000000))))
 	}
+	// a peer connects (either direction), completes the handshake and hangs up: nothing may keep running (6be4efc)
+	emit("fzspin f2.2;h2;S")
+	emit("fzspin i7;S")
+	emit("fzspin i7;i8;f2.2;q3;h2;S;q2")
 	// oversized documents
 	emit("fzfetch 1")
 	emit("fzfetch 48")
